@@ -342,6 +342,11 @@ def unit_corpus(a):
               "Feature: f\n Scenario: s\n @dangling\n\n\n", "Feature: f\n Scenario: s\n  Given x\n   \"\"\"\n\n\n\n", "Feature: f\n\n\n\n", "\n\n\n", "Feature: f\n @t\n # c\n\n",
               "Feature: f\n Scenario: s\n  Given x\n   | a |\n\n\n", "garbage\n\n\n"]:
         cases.append({"sub": "layout", "text": t, "label": "ends-in-blank-lines", "choices": [3] * 24})
+    # control characters that mean "end of text" to other systems, as the last character / last line / first character of a document
+    for ch in ("\x1a", "\x04", "\x00", "\x03", "\x1c", "\x7f", "\ufeff", "\u2028", "\x0c"):
+        for t in ("Feature: f\n Scenario: s\n  Given x" + ch, "Feature: f\n Scenario: s\n  Given x\n" + ch, "Feature: f\n Scenario: s\n  Given x\n" + ch + "\n", "Feature: f\n# c" + ch, ch + "Feature: f\n",
+                  "Feature: f\n Scenario: s\n  Given x\n   | a" + ch + " |" + ch):
+            cases.append({"sub": "layout", "text": t, "label": "end-of-text-characters", "choices": [5] * 24})
     from .c17 import large_sources
     cases.append({"sub": "layout", "text": large_sources()[0], "label": "large-non-ascii-file", "choices": [1] * 24})
     cases.append({"sub": "layout", "text": "\ufeffFeature: bom\n Scenario: s\n  Given x\n", "label": "bom", "choices": [2] * 24})
